@@ -380,10 +380,86 @@ func c19WUnits(thorough bool) []*explore.Unit {
 	return units
 }
 
+// ---- C12 on the wire: a sub-call's own context ends while the multi-response is on its way
+
+func c12WCancelUnits() []*explore.Unit {
+	var units []*explore.Unit
+	for _, victim := range []string{"get", "inc"} {
+		for _, posn := range []int{0, 1, 2} {
+			victim, posn := victim, posn
+			var w *world
+			var res []hrpc.RPCResult
+			keys := []string{"a0", "a1", "a2"}
+			u := &explore.Unit{Name: fmt.Sprintf("wire|own context of %s@%d ends in flight", victim, posn), Bound: 1, Opt: vrt.Options{MaxSteps: 80000}}
+			u.Body = func() {
+				cl := c09Cluster("coloc")
+				w = newWorldW(cl, gohbase.FlushInterval(time.Millisecond))
+				for _, k := range []string{"a", "x"} {
+					if err := doOp(w, "get", "t", k); err != nil {
+						panic(err)
+					}
+				}
+				ctx, cancel := context.WithCancel(context.Background())
+				var calls []hrpc.Call
+				for i, k := range keys {
+					cctx := context.Background()
+					if i == posn {
+						cctx = ctx
+					}
+					if i == posn && victim == "get" {
+						g, _ := hrpc.NewGetStr(cctx, "t", k)
+						calls = append(calls, g)
+					} else {
+						inc, _ := hrpc.NewIncStrSingle(cctx, "t", k, "f", "q", 1)
+						calls = append(calls, inc)
+					}
+				}
+				cl.DelayResp["rs1:1"] = true
+				base := cl.MultiSeq
+				vrt.GoNamed("h:event", func() {
+					vrt.Await("h:multi-executed", func() bool { return cl.MultiSeq > base })
+					cancel()
+					vrt.Yield("h:release")
+					cl.ReleaseResponses()
+				})
+				res, _ = w.client.SendBatch(context.Background(), calls)
+				cl.ReleaseResponses()
+				w.client.Close()
+				vrt.Sleep(10 * time.Minute)
+				cancel()
+			}
+			u.Check = func(r *vrt.Result) *explore.Finding {
+				if f := baseFinding(r); f != nil {
+					return f
+				}
+				if r.Deadlock {
+					return &explore.Finding{Class: "batch-blocked-forever", Msg: fmt.Sprintf("%v", r.Blocked)}
+				}
+				cl := w.cl
+				for i, k := range keys {
+					if i == posn && victim == "get" {
+						continue
+					}
+					if n := cl.Counters["t/"+k]; n > 1 {
+						return &explore.Finding{Class: "call-executed-more-than-once",
+							Msg: fmt.Sprintf("increment of %q was executed %d times although its success had been received (the context of call %d ended while the response was on its way)", k, n, posn)}
+					}
+					if i != posn && (res[i].Error != nil || cl.Counters["t/"+k] != 1) {
+						return &explore.Finding{Class: "unaffected-call-of-batch-failed", Msg: fmt.Sprintf("call %d: %v (counter %d)", i, res[i].Error, cl.Counters["t/"+k])}
+					}
+				}
+				return nil
+			}
+			units = append(units, u)
+		}
+	}
+	return units
+}
+
 // ---- C12 on the wire: per-region order inside the real multi-request
 
 func c12WUnits(thorough bool) []*explore.Unit {
-	var units []*explore.Unit
+	units := c12WCancelUnits()
 	pats := []string{"AB", "ABAB", "BABA", "AABB", "ABBA", "ABA"}
 	if thorough {
 		pats = append(pats, "ABABAB", "BBAABA", "AAAB", "BAAA")
